@@ -184,6 +184,39 @@ def replay_case(col, item):
         col.nontrivial.add(json.dumps([a["pairs"], a["pv"], a["sv"]]))
 
 
+def read_modes(col, case):
+    """Collocations.read in its three modes is the stored compact dataset / Expand / Collapse of CompactProps."""
+    import shutil
+    import tempfile
+    from typhon.collocations import Collocations
+    a = case["a"]
+    root = tempfile.mkdtemp(prefix="verif-c13-")
+    try:
+        path = os.path.join(root, "c.nc")
+        Collocations(path, read_mode="compact").write(build(a), path)
+        rep_conf = {"via": "Collocations.read"}
+        comp = Collocations(path, read_mode="compact").read(path)
+        comp["Collocations/pairs"] = comp["Collocations/pairs"].astype(int)       # the NetCDF reader widens ints (not judged)
+        check_expand(col, a, a["expand"], comp, "read-compact-then-expand", rep_conf)
+        exp = Collocations(path, read_mode="expand").read(path)
+        pv = exp["primary/val"].values
+        sv = exp["secondary/bt"].transpose("collocation", "secondary/channel").values
+        col.count(1)
+        if not same(pv, [val(r[0]) for r in a["expand"]]) or not same(sv, [[val(x) for x in r[1]] for r in a["expand"]]):
+            col.violation("read-mode-expand-wrong-rows", {"abstract": {"pairs": a["pairs"]}, "observed": pv.tolist()})
+        with np.errstate(all="ignore"):
+            coll = Collocations(path).read(path)                                  # default mode: collapse onto the primary
+        num = coll["secondary/bt_number"].values
+        col.count(1)
+        want = [[st["number"] for st in row["stat"]] for row in a["colp"]]
+        if num.shape != np.array(want).shape or not np.array_equal(num, np.array(want)):
+            col.violation("read-mode-collapse-wrong-number", {"abstract": {"pairs": a["pairs"]}, "expected": want, "observed": num.tolist()})
+    except Exception as ex:
+        col.violation("read-modes-raise-" + type(ex).__name__, {"abstract": {"pairs": a["pairs"]}, "observed": repr(ex)[:300]})
+    finally:
+        shutil.rmtree(root, ignore_errors=True)
+
+
 def real_results(col, seed):
     """Structural clause on genuine collocate() output: valid indices, every stored point used, and
     expand() rows carry exactly the ids of the pair they stand for."""
@@ -238,6 +271,7 @@ def run(ctx):
         # one replay per distinct `a` is enough for expand/collapse; keep all (a, b) for concat on a third
         cases = cases[::3]
     pmap(ctx, replay_case, [(c, n, ctx.tier) for n, c in enumerate(cases)])
+    pmap(ctx, read_modes, cases[::12] if quick else cases[::40], procs=1)       # NetCDF I/O: one process, one thread
     pmap(ctx, real_results, [ctx.seed * 1000 + i for i in range(24 if quick else 300)])
     ctx.traces += len(cases)
     ctx.sample({k: cases[0]["a"][k] for k in ("pairs", "pv", "sv", "expand", "colp")})
